@@ -543,12 +543,14 @@ pub fn run(args: &Args) -> i32 {
     // reported after the first chunks instead of after hours
     let mut results = vec![];
     let mut executed = 0usize;
+    let mut total_bad = 0usize;
     for chunk in cases.chunks(args.threads.min(12) * 16) {
         let r = mcutil::par_map(args.threads.min(12), chunk, |_, c| run_case(c));
         let bad = r.iter().filter(|x| !matches!(x, Ok(None))).count();
         results.extend(r);
         executed += chunk.len();
-        if bad > chunk.len() / 4 && executed >= chunk.len() * 2 {
+        total_bad += bad;
+        if (bad > chunk.len() / 4 && executed >= chunk.len() * 2) || total_bad >= 300 {
             rep.set("stopped_early_after_mass_failure", true);
             break;
         }
